@@ -333,7 +333,7 @@ struct Harness : HarnessBase {
 		std::vector<int> ord = expectedOrder(model[i]);
 		bool expect = pos < (int)ord.size();
 		bool got = A::removeAt(*obj[i], pos);
-		ctx.log(fmt("removeAt(O%d,%d) -> %d", i, pos, (int)got));
+		ctx.log(fmt("removeAt(O%d,%d) -> %d", i, pos, (int)got)); ctx.tagStep(got ? "+r1" : "+r0");
 		if(expect) model[i].listeners.erase(std::find(model[i].listeners.begin(), model[i].listeners.end(), ord[pos]));
 		if(got != expect) report("remove-result", fmt("removing position %d of O%d returned %d, expected %d", pos, i, (int)got, (int)expect));
 	}
